@@ -23,6 +23,8 @@ func init() {
 
 func runC35(c *core.Ctx) {
 	accessorPairs(c, "C35.accessor-keys", 10, pkSCM)
+	checkVoteTagsDistinct(c, "C35.ledger-tag")
+	checkQuitUnregisters(c, "C35.quit-unregisters")
 	gsc := eng.Obj(c, pkSCM, "GetSideChain")
 	gsa := eng.Obj(c, pkSCM, "getSideChainApply")
 	gus := eng.Obj(c, pkSCM, "getUpdateSideChain")
